@@ -167,14 +167,17 @@ PLANS = {
         "jobs": jobs_c18,
         "parallel": 2,
         "rule": "(a) concurrent first use, randomised stress (the schedule is not controlled): generated cases of 2..48 threads, each with a "
-                "spin count before its first call and 1..3 short jobs over 28 algorithms (17 hashes, 7 ciphers, 3 Threefish sizes, block "
-                "API), 70 % of the threads making their first call into one shared target; and sustained cases of 8..32 threads pushing "
-                "0.5-2 MiB each through one algorithm; every case runs in a freshly started child process with all threads released by a "
+                "spin count before its first call and 1..3 short jobs over 34 algorithms (23 hashes incl. several Skein output sizes per state size, 7 ciphers, 3 Threefish "
+                "sizes, block API), 70 % of the threads making their first call into one shared target or (half of the cases) into "
+                "siblings of it - other variants of the family / other output sizes of the same Skein state size; sustained cases of "
+                "8..32 threads pushing 0.5-2 MiB each through one algorithm; churn cases of 4..16 threads each running 50..400 tiny jobs "
+                "alternating between 2..3 sibling algorithms; every case runs in a freshly started child process with all threads released by a "
                 "barrier; oracle: every output equals the single-threaded one-at-a-time result (itself checked against the reference "
                 "model for inputs <= 8 KiB). (b) interleaving, deterministic: 2..6 instances of equal or different types (hashes and "
                 "ciphers) receive 1..39 boundary-relative pieces in generated interleaved order, in one thread or distributed over 2..4 "
-                "owner threads; oracle: every instance equals its own one-at-a-time result. Non-trivial = >= 2 threads share a "
-                "first-call target resp. >= 2 instances interleaved; distinct = FNV-1a of (configuration, case)",
+                "owner threads; cipher instances keyed independently, identically, or identically except for nonce bytes 0..8 / 8..16 / "
+                "16..24 / one byte of key or nonce; oracle: every instance equals its own one-at-a-time result. Non-trivial = >= 2 threads share a "
+                "first-call target, a churn case, resp. >= 2 instances interleaved; distinct = FNV-1a of (configuration, case)",
         "assumptions": COMMON_ASSUMPTIONS + ["part (a) is a stress test: thread schedules are produced by the OS, not enumerated; a narrow race window can be missed"],
     },
     "C16": {
@@ -184,7 +187,9 @@ PLANS = {
                 "encrypt/decrypt (3 sizes, key and block), guts ChaCha::new/refill/refill4, JH Compressor::input, read_le/read_be/"
                 "write_le/write_be of the five StoreBytes vector types on every back end. Exhaustive: every API x start alignment 0..63 "
                 "(between canaries) + slice ending on the last byte before a PROT_NONE page + slice starting on the first byte after one, "
-                "lengths rotating through 1,2,15..17,31,63..65,127..129,255..257,1000; generated: random (API, placement, length <= 4000, "
+                "lengths rotating through 1,2,15..17,31,63..65,127..129,255..257,1000,4096..12301; every variable-length API with one call of "
+                "64 KiB .. 1.3 MiB (after a short first call) at aligned and unaligned starts, against both guard pages and across a "
+                "page boundary; generated: random (API, placement, length <= 4000, "
                 "content). Oracle: result equals the result on an ordinary heap buffer, canaries intact, process survives (a fault is "
                 "attributed to its case through the progress file and replayed in a fresh process). Non-trivial = length >= 1 and "
                 "(address not 16-byte aligned or slice abuts a guard page); distinct = FNV-1a of (configuration, case)",
@@ -194,7 +199,8 @@ PLANS = {
         "build_failure_is_violation": True,
         "rule": "the C01 (7 cipher types), C14 (block API), BLAKE x4 and JH x4 generators, every case compared with the reference model, "
                 "executed under: run-time dispatch with the host level forced to SSE2/SSSE3/SSE4.1/AVX/AVX2 through the hook plus the real "
-                "host, the portable no_simd build, and the five no-std compile-time dispatch arms (-C target-feature); plus the public "
+                "host, the portable no_simd build, the five no-std compile-time dispatch arms (-C target-feature) and std / no-std builds "
+                "with -C target-cpu=native; plus the public "
                 "generic bodies jh f8_impl::<M> and blake u32x4/u64x4::put_block::<M> instantiated for every Machine on generated "
                 "arbitrary chaining values, blocks and counters against the reference compression functions; a configuration that does "
                 "not build is a violation; non-trivial = request/message of >= 1 byte resp. every direct case; distinct = FNV-1a of "
@@ -207,7 +213,8 @@ PLANS = {
                 "byte ramp, 0x80/0x7f bytes, one all-ones word) is run through every (vector type, operation) cell required by the Machine "
                 "trait bounds - 10 types x {xor, xor_assign, and, or, not, andnot, rotate_each_word_right 7/8/11/12/16/20/24/25 (+32 for "
                 "64/128-bit words), add, add_assign, bswap, shuffle1230/2301/3012, shuffle_lane_words*, swap1..64} = 202 cells - on each of "
-                "the back ends SSE2, SSSE3, SSE4.1, AVX, AVX2 and portable; plus generated straight-line programs (1..24 ops over four 512-bit "
+                "the back ends SSE2, SSSE3, SSE4.1, AVX, AVX2 and portable, the type-level Machines also instantiated in builds with "
+                "+ssse3, +avx2 and -C target-cpu=native enabled at compile time (std and no-std); plus generated straight-line programs (1..24 ops over four 512-bit "
                 "registers: arithmetic/bitwise/rotate/bswap/shuffle/swap ops on the u32x4x4, u64x2x4, u128x4 views, lane extract/insert, "
                 "to_lanes/from_lanes, transpose4) executed on every back end; oracle: byte-level scalar model of the named operation; "
                 "non-trivial = first operand not all-zero; distinct = FNV-1a of (back end, operand set)",
@@ -237,7 +244,7 @@ PLANS = {
         "jobs": jobs_c19,
         "rule": "one generated operand set (two 512-bit values uniform/structured incl. all-ones and single-bit, rotate amounts reduced into "
                 "1..bits-1, word rotation 0..3, lane index, replacement word) evaluates every public constructor/method cell of u32x4, "
-                "u64x4, u128x1, u128x2, u32x4x4 (78 cells) against the byte-level scalar model; optimised and overflow-checked profiles; "
+                "u64x4, u128x1, u128x2, u32x4x4 (84 cells; the two crypto-simd traits also called through a generic bound) against the byte-level scalar model; optimised and overflow-checked profiles; "
                 "non-trivial = first operand not all-zero; distinct = FNV-1a of (configuration, case)",
     },
     "C04": {
@@ -264,7 +271,8 @@ PLANS = {
         "jobs": lambda tier: jobs_conf(tier, False, ("nostd-sse2", "nostd-ssse3", "nostd-native")),
         "rule": "Groestl-224/256/384/512 x message: exhaustive length sweep 0..=3*block+2, generated lengths up to 8 blocks with boundary "
                 "bias, long messages, and block counts 255/256/257 (quick) and 65535/65536/65537 (thorough) with 0, 5, block-9, block-8 "
-                "trailing bytes; oracle: reference Groestl; every case is non-trivial; distinct = FNV-1a of (configuration, case)",
+                "trailing bytes; run on the AES-NI implementation (std, and no-std with target-cpu=native) and on the SSSE3 and SSE2 "
+                "implementations (no-std compile-time dispatch); oracle: reference Groestl; every case is non-trivial; distinct = FNV-1a of (configuration, case)",
     },
     "C08": {
         "jobs": jobs_c08,
